@@ -65,6 +65,8 @@ pub struct FaultCfg {
     pub eagain_runs: Vec<u32>,
     /// special sequence: from the chosen index on, every descriptor-creating call fails with EMFILE
     pub exhaustion: bool,
+    /// environment answers instead of the class catalogue: only these syscalls (openat only for "/proc"), these errnos
+    pub custom: Option<(Vec<String>, Vec<i32>)>,
 }
 
 #[derive(Clone, Debug)]
@@ -217,8 +219,12 @@ pub fn execute(cfg: &ExecCfg, ch: &mut Chooser) -> MResult<ExecOut> {
                         }
                     }
                     Mode::Fault(fc) => {
-                        let cat = catalogue(&ev);
-                        let eligible = fc.all_syscalls || ev.path.is_some() || creates_fd(&ev.name, &ev) || ev.name == "getdents64";
+                        let mut cat = catalogue(&ev);
+                        let mut eligible = fc.all_syscalls || ev.path.is_some() || creates_fd(&ev.name, &ev) || ev.name == "getdents64";
+                        if let Some((names, errs)) = &fc.custom {
+                            eligible = names.contains(&ev.name) && (ev.name != "openat" || ev.path.as_deref() == Some("/proc"));
+                            cat = errs.clone();
+                        }
                         if eagain_left > 0 && ev.name == "openat2" { inject = Some(libc::EAGAIN); eagain_left -= 1; }
                         else if exhaust && creates_fd(&ev.name, &ev) { inject = Some(libc::EMFILE); }
                         else if eligible && !cat.is_empty() && eagain_left == 0 && !exhaust {
